@@ -7,6 +7,7 @@ Oracle: the definitions (total pressure / temperature, Riemann invariants, Ranki
 """
 import math
 
+import zlib
 import numpy as np
 from hypothesis import strategies as st
 
@@ -148,6 +149,17 @@ def judge_euler(g, bc, nrm, inner, state, par, where):
 
 # ---------------------------------------------------------------- parameters by regime
 def make_params(g, bc, nrm, inner, e):
+    """admissible parameter dictionary for `bc`; for a third of the (bc, e) pairs it is a superset dictionary that also carries the keys among
+    ptot / rttot / p which this condition does not read (one dictionary reused while the type is switched): they are documented to be ignored"""
+    par = _make_params(g, bc, nrm, inner, e)
+    if isinstance(par, dict) and zlib.crc32(repr((bc, [float(x) for x in e])).encode()) % 3 == 0:
+        pm = float(np.exp(np.mean(np.log(inner[2]))))
+        extra = dict(p=pm * 10 ** (1.2 * e[1] - 0.7), ptot=pm * 10 ** (1.5 * e[2] + 0.1), rttot=10 ** (3 * e[0] - 1.3))
+        par = dict(par, **{k: v for k, v in extra.items() if k not in par})
+    return par
+
+
+def _make_params(g, bc, nrm, inner, e):
     """admissible parameter dictionary for `bc` given the interior arrays and exponents e=[e1,e2,e3] in [0,1]"""
     rho0, V0, p0 = inner
     v20 = V0 ** 2 if V0.ndim == 1 else V0[0] ** 2 + V0[1] ** 2
